@@ -450,8 +450,11 @@ def _emit_fn(unit, repo, rel, scope, name, opts, flags, contract, directives, va
     for (dk, dopts, pat, rep, tline) in directives:
         do = dict(o.split("=", 1) for o in dopts if "=" in o)
         want = do.get("count", "1")
+        optional = "optional" in dopts
         if dk in ("OUTLINE", "HAVOC", "CLOSURE", "REPLACE"):
             hits, n = _find_pattern(sf, ob, cb + 1, pat, qual)
+            if optional and not hits:
+                continue
             if (want == "all" and not hits) or (want != "all" and len(hits) != int(want)):
                 raise GenError("anchor lost in %s (%s line %d): pattern `%s` found %d times, want %s" % (
                     qual, os.path.basename(template_path), tline, pat, len(hits), want))
@@ -463,6 +466,8 @@ def _emit_fn(unit, repo, rel, scope, name, opts, flags, contract, directives, va
         elif dk in ("HINT", "LOOPINV"):
             where = dopts[0] if dopts and dopts[0] in ("after", "before") else ("after" if dk == "HINT" else "after")
             hits, n = _find_pattern(sf, ob, cb + 1, pat, qual)
+            if optional and not hits:
+                continue
             if (want == "all" and not hits) or (want != "all" and len(hits) != int(want)):
                 raise GenError("anchor lost in %s (%s line %d): pattern `%s` found %d times, want %s" % (
                     qual, os.path.basename(template_path), tline, pat, len(hits), want))
